@@ -4,10 +4,18 @@ from mc import core, det, domains, sse
 PROPERTY = 'C05'
 ENGINE = 'E1 bounded-exhaustive enumeration of ALL list-length profiles per (scheme, configuration point), grouped by the public size parameter'
 LEVEL = 'model_checking'
+DIRECTED_ADDITIONS = 'configuration sweep, full identifier-size axis, equal-N families at N = 600 / 1025 (3000), empty posting lists, Pi2Lev configurations beyond its guard'      # members added during the seeded-change campaign (DESIGN 7); counted under their own vacuity counters
+
 NMAX = {'quick': 12, 'thorough': 16}
 
 
 def describe(tier):
+    d = _describe(tier)
+    d['rule'] = d['rule'] + ' Directed additions: ' + DIRECTED_ADDITIONS + '.'
+    return d
+
+
+def _describe(tier):
     n = NMAX[tier]
     return {
         'rule': 'case = (scheme, configuration point, list-length profile, content assignment); ALL integer partitions of every N<=%d '
